@@ -39,8 +39,10 @@ def deep(name, grammars, depths, **kw):
 
 PLANS = {
     "C01": {
-        "quick": [ex("peg2", "peg", 2, 3, alphabet=["a", "b", "E"]), rec("pegR", "peg", 1500, 8, 8)],
-        "thorough": [ex("peg2", "peg", 2, 4, alphabet=["a", "b", "E"]), ex("peg3", "peg", 3, 3), rec("pegR", "peg", 20000, 10, 10)],
+        "quick": [ex("peg2", "peg", 2, 3, alphabet=["a", "b", "E"]), ex("stat", "stat", 1, 3, alphabet=["a", "b", "E"], kinds=["static", "staticc", "str"]),
+                  rec("pegR", "peg", 1500, 8, 8)],
+        "thorough": [ex("peg2", "peg", 2, 4, alphabet=["a", "b", "E"]), ex("peg3", "peg", 3, 3), ex("stat", "stat", 1, 5, alphabet=["a", "b", "E"], kinds=["static", "staticc", "str"]),
+                     rec("pegR", "peg", 20000, 10, 10)],
     },
     "C02": {
         "quick": [ex("repT", "repT", 1, 3, alphabet=["a", ","], modes=["E"]), ex("rep2", "rep", 2, 3, alphabet=["a", "b", ","]), rec("repR", "rep", 2500, 7, 9)],
@@ -53,7 +55,7 @@ PLANS = {
                      ex("rcv3", "rcv", 3, 3), rec("pegR", "peg", 20000, 10, 10, etys=ALL_ETYS), rec("lblR", "lbl", 20000, 10, 10, etys=ALL_ETYS)],
     },
     "C04": {
-        "quick": [ex("peg2", "peg", 2, 3), ex("emit3", "emit", 3, 3), ex("ctx2", "ctx", 2, 3), rec("emitR", "emit", 1500, 8, 8), rec("pegR", "peg", 1000, 8, 8), rec("ctxR", "ctx", 1000, 8, 8)],
+        "quick": [ex("peg2", "peg", 2, 3), ex("emit3", "emit", 3, 3), ex("ctx2", "ctx", 2, 3), ex("stat", "stat", 1, 3, kinds=["static"]), rec("emitR", "emit", 1500, 8, 8), rec("pegR", "peg", 1000, 8, 8), rec("ctxR", "ctx", 1000, 8, 8)],
         "thorough": [ex("peg3", "peg", 3, 3), ex("emit4", "emit", 4, 3), ex("ctx3", "ctx", 3, 3), rec("emitR", "emit", 20000, 10, 10), rec("pegR", "peg", 20000, 10, 10), rec("ctxR", "ctx", 10000, 10, 10)],
     },
     "C05": {
@@ -109,7 +111,7 @@ PLANS = {
                      ex("rcvN", "rcvN", 1, 6, alphabet=["a", "(", ")", "[", "]"], invariants=DEFAULT_INVARIANTS + ["TextRefines"]), rec("rcvR", "rcv", 30000, 10, 10)],
     },
     "C11": {
-        "quick": [ex("memo3", "memo", 3, 3), ex("memoT", "memoT", 1, 4), ex("lrec", "lrec", 1, 5, alphabet=["a", "+"], invariants=NO_DEN), ex("recm", "rec", 1, 4, alphabet=["a", "b", "(", ")"]),
+        "quick": [ex("memo3", "memo", 3, 3), ex("memoT", "memoT", 1, 4), ex("stat", "stat", 1, 3, kinds=["static", "staticc"]), ex("lrec", "lrec", 1, 5, alphabet=["a", "+"], invariants=NO_DEN), ex("recm", "rec", 1, 4, alphabet=["a", "b", "(", ")"]),
                   rec("memoR", "memo", 1500, 8, 8)],
         "thorough": [ex("memo3", "memo", 3, 4), ex("memoT", "memoT", 1, 6), ex("lrec", "lrec", 1, 7, alphabet=["a", "+"], invariants=NO_DEN), rec("memoR", "memo", 30000, 10, 10)],
     },
@@ -121,6 +123,7 @@ PLANS = {
     },
     "C13": {
         "quick": [ex("hpeg2", "peg", 2, 2, hist=1), ex("hmemo2", "memo", 2, 2, hist=2, modes=["E"], kinds=["slice"]),
+                  ex("stat", "stat", 1, 3, kinds=["static", "staticc"], modes=["E"]),
                   rec("pegH", "peg", 1000, 8, 6, kinds=["str", "slice", "stream"]), rec("memoH", "memo", 500, 8, 6), rec("rcvH", "rcv", 500, 8, 6),
                   rec("repH", "rep", 800, 8, 6), rec("recH", "rec", 500, 8, 8), rec("ctxH", "ctx", 400, 8, 6), rec("lblH", "lbl", 400, 8, 6)],
         "thorough": [ex("hpeg2", "peg", 2, 2, hist=3, modes=["E"]), ex("hpeg3", "peg", 3, 2, hist=1), ex("hmemo3", "memo", 3, 2, hist=2, modes=["E"], kinds=["slice"]),
